@@ -27,6 +27,7 @@ def check(run):
     c07.check_vmf(ck)
     c07.check_bingham(ck)
     c07.check_gaussians(ck)
+    c07.close_terms(ck)
     # Watson mode / PCA: principal eigenpair
     n = sel.check_principal(run, A, 'pb_bss.utils::get_pca')
     fit = A.prog.func(D + 'complex_watson::ComplexWatsonTrainer._fit')
